@@ -200,6 +200,8 @@ def main() -> int:
                 mech2 = "float_const_literal"
             elif code == "redundant-cast" and kind_ == "model" and src_line.startswith("return cast("):
                 mech2 = "literal_enum_redundant_cast"
+            elif code == "redundant-cast" and re.search(r"= cast\(list\[Any\], data\)$", src_line):
+                mech2 = "union_member_list_of_any_redundant_cast"
             key_ = f"mypy:{mech2}" if mech2 else f"mypy:{code}:{kind_}"
             vd.violation(key_, f"{label}: {rel}:{ln}: {msg} | {src_line}", {"doc": j["doc"] if j else None, "cfg": j.get("cfg") if j else None, "mypy": line})
     ev.count("packages_type_checked", len(pkgs))
